@@ -111,21 +111,43 @@ def run(ctx, rep):
         sl = flow.backward_slice(LS, op_place(rn[0][1]["args"][2]))
         rep.check("C19.b", "list/prune-with-backend-list", bool(bc) and bc[0] in sl["call_sites"], where=where(LS, rn[0][0]), what="remove_not_in_list receives the backend's listing")
     RN = prog.find1(r"^rustic_core::backend::cache::Cache::remove_not_in_list$")
-    rms = [bb for bb, t in RN.calls() if "callee" in t and callee(t).endswith("cache::Cache::remove")]
-    loops = [(h, C.loop_blocks(RN, h, l)) for (l, h) in C.back_edges(RN)]
-    in_loops = [[i for i, (h, bl) in enumerate(loops) if r in bl] for r in rms]
-    two = len(rms) == 2 and all(in_loops) and in_loops[0] != in_loops[1]
+    # two removal passes, in the function itself or in closures it hands to iterator consumers (`keys().try_for_each(..)`): the
+    # two Cache::remove sites lie in different iteration contexts (another loop, or another body)
+    ctxs = []
+    for F_ in [RN] + prog.closures_of(RN):
+        lp_ = [(h, C.loop_blocks(F_, h, l)) for (l, h) in C.back_edges(F_)]
+        for bb, t in F_.calls():
+            if "callee" in t and callee(t).endswith("cache::Cache::remove"):
+                inner = sorted([(len(bl), h) for (h, bl) in lp_ if bb in bl])
+                ctxs.append((F_.path, inner[0][1] if inner else None))
+    two = len(ctxs) == 2 and ctxs[0] != ctxs[1] and all(c_[1] is not None or c_[0] != RN.path for c_ in ctxs)
     rep.check("C19.b", "remove_not_in_list/two-removals", two, where=RN.loc(), what="remove_not_in_list removes in two passes: entries with a different size, and entries not in the list")
-    if len(rms) == 2:
-        # first removal: control-dependent on a size comparison; second: iterates the remaining keys of the cache list
-        sizecmp = False
-        for (sw, succ) in C.transitive_control_deps(RN, rms[0]):
-            e = flow.expr_of(RN, RN.term(sw)["discr"])
-            if re.search(r"PartialEq|'Ne'|'Eq'", repr(e)):
-                sizecmp = True
-        rep.check("C19.b", "remove_not_in_list/size-mismatch", sizecmp, where=where(RN, rms[0]), what="a cached file whose size differs from the listed size is removed")
-        sl = flow.backward_slice(RN, op_place(RN.term(rms[1])["args"][2]))
-        rep.check("C19.b", "remove_not_in_list/not-listed", any(c.endswith("Cache::list_with_size") for c in sl["calls"]) and any(re.search(r"::keys$|::into_keys$|::iter$|::drain$", c) for c in sl["calls"]), where=where(RN, rms[1]),
+    sites_ = []
+    for F_ in [RN] + prog.closures_of(RN):
+        for bb, t in F_.calls():
+            if "callee" in t and callee(t).endswith("cache::Cache::remove"):
+                sites_.append((F_, bb))
+    if len(sites_) == 2:
+        # one removal is control-dependent on a size comparison; the other iterates the remaining keys of the cache list
+        def size_guarded(F_, bb):
+            return any(re.search(r"PartialEq|'Ne'|'Eq'", repr(flow.expr_of(F_, F_.term(sw)["discr"]))) for (sw, succ) in C.transitive_control_deps(F_, bb))
+        first = [x for x in sites_ if size_guarded(*x)]
+        rest = [x for x in sites_ if x not in first[:1]]
+        rep.check("C19.b", "remove_not_in_list/size-mismatch", bool(first), where=where(*first[0]) if first else RN.loc(), what="a cached file whose size differs from the listed size is removed")
+        oknl = False
+        if rest:
+            F_, bb = rest[0]
+            if F_ is RN:
+                sl = flow.backward_slice(RN, op_place(RN.term(bb)["args"][2]))
+                oknl = any(c.endswith("Cache::list_with_size") for c in sl["calls"]) and any(re.search(r"::keys$|::into_keys$|::iter$|::drain$", c) for c in sl["calls"])
+            else:
+                # the closure is consumed by an iterator consumer whose receiver is the remaining keys of the cache listing
+                for cb, ct in RN.calls():
+                    if "callee" in ct and re.search(r"Iterator::(try_for_each|for_each|try_fold|fold|map)$", callee_decl(ct)) and ct["args"] and op_place(ct["args"][0]):
+                        sl = flow.backward_slice(RN, op_place(ct["args"][0]))
+                        if any(c.endswith("Cache::list_with_size") for c in sl["calls"]) and any(re.search(r"::keys$|::into_keys$|::iter$|::drain$", c) for c in sl["calls"]):
+                            oknl = True
+        rep.check("C19.b", "remove_not_in_list/not-listed", oknl, where=where(*rest[0]) if rest else RN.loc(),
                   what="every cached id that is left after removing the listed ones (not in the repository) is removed")
     # every listing entry point of CachedBackend prunes: `list` is either not overridden (the trait default calls
     # list_with_size) or goes through list_with_size / remove_not_in_list itself
@@ -206,6 +228,18 @@ def run(ctx, rep):
             ok_only = bool(okt) and rs[0] not in CW.reachable_from(0, cut_edges=[(sw, okt[0])])
         rep.check("C19.d", "write/rename-after-write", ok_only, where=where(CW, rs[0]), what="rename happens only after the temporary file was written successfully")
     CL = prog.find1(r"^rustic_core::backend::cache::Cache::list_with_size$")
-    fam = prog.closures_of(CL)
+    fam = list(prog.closures_of(CL))
+    # named fns used as filter predicates (`.filter(is_cache_file)`) and crate-local helpers they call
+    for _, t_ in CL.calls():
+        for a_ in t_.get("args", []):
+            if a_[0] == "k" and isinstance(a_[1], dict) and "fn" in a_[1]:
+                fb_ = prog.bodies.get((a_[1]["fn"].get("resolved") or {}).get("path") or a_[1]["fn"]["callee"])
+                if fb_ is not None and fb_.crate == "rustic_core":
+                    fam.append(fb_)
+    for f_ in list(fam):
+        for _, t_ in f_.calls():
+            if "callee" in t_ and callee(t_).startswith("rustic_core::") and callee(t_) in prog.bodies:
+                fam.append(prog.bodies[callee(t_)])
+        fam += [c_ for c_ in prog.closures_of(f_) if c_ not in fam]
     has64 = any(s[0] == "=" and s[2][0] == "bin" and s[2][1] == "Eq" and any(o[0] == "k" and o[1].get("v") == 64 for o in (s[2][2], s[2][3])) for f in fam for blk in f.blocks for s in blk["s"])
     rep.check("C19.d", "list/64-char-filter", has64, where=CL.loc(), what="the cache listing accepts only names of exactly 64 characters")
